@@ -660,6 +660,59 @@ theorem clusterhmmer_ignores_fullhmmer_option (o : PfamOpts) (other : String) (r
 theorem fullhmmer_ignores_clusterhmmer_option (o : PfamOpts) (other : String) (res : Option HmmerRes) :
     hmmerRunOnRecord .full { o with clusterVersion := other } res = hmmerRunOnRecord .full o res := rfl
 
+/-! ### Part 7 — renamed duplicate records, and annotating a record that was stripped first -/
+
+/-- HMMer-based results are reused only for the record whose *current* id they carry: a record that
+    pre-processing renamed (`scaffold` → `scaffold_0`, original id `scaffold`) does not inherit the
+    results saved for the record that kept the name -/
+theorem hmmer_renamed_duplicate_discarded (ctx : Ctx) (kv : List (String × J)) (stored : String)
+    (hs : lookup "record id" kv = some (.str stored)) (_horig : ctx.originalId = some stored)
+    (hne : stored ≠ ctx.recordId) (maxE minS : Dec) :
+    HmmerRes.fromJson ctx (.obj kv) = .discard ∧ HmmerRes.regenerate ctx maxE minS (.obj kv) = .discard := by
+  have h1 : HmmerRes.fromJson ctx (.obj kv) = .discard := by
+    simp [HmmerRes.fromJson, hs, isStrLit, hne]
+  refine ⟨h1, ?_⟩
+  unfold HmmerRes.regenerate
+  split
+  · rfl
+  · rw [h1]
+
+/-- no record guard of any results class looks at the original id -/
+theorem record_guards_ignore_original_id (r : ModRules) (ctx : Ctx) (orig : Option String) (o : HmmOpts)
+    (maxE minS : Dec) (req : Option Sideloaded) (j : J) :
+    HmmerRes.regenerate { ctx with originalId := orig } maxE minS j = HmmerRes.regenerate ctx maxE minS j
+    ∧ NrpsPks.fromJson r { ctx with originalId := orig } j = NrpsPks.fromJson r ctx j
+    ∧ HmmDet.regenerate { ctx with originalId := orig } o j = HmmDet.regenerate ctx o j
+    ∧ Sideloaded.regenerate { ctx with originalId := orig } req j = Sideloaded.regenerate ctx req j := by
+  refine ⟨?_, ?_, ?_, ?_⟩
+  · cases j <;> rfl
+  · cases j <;> rfl
+  · cases j <;> rfl
+  · cases j <;> rfl
+
+/-- `GeneFunctionAnnotations`: `add` and `clear` keep the duplicate index equal to the annotations … -/
+theorem geneFunctions_index_consistent (g : GeneFns) (f : GeneFn) (h : g.consistent = true) :
+    (g.add f).consistent = true ∧ g.clear.consistent = true := by
+  simp only [GeneFns.consistent, beq_iff_eq] at h
+  constructor
+  · unfold GeneFns.add
+    split
+    · simpa [GeneFns.consistent] using h
+    · simp [GeneFns.consistent, h]
+  · rfl
+
+/-- … so after `clear` an annotation that was there before is added again -/
+theorem geneFunctions_clear_then_add (g : GeneFns) (f : GeneFn) : (g.clear.add f).annotations = [f] := by
+  simp [GeneFns.clear, GeneFns.add]
+
+/-- the reuse flow of `main.read_data`: a gene that already carries the annotations, stripped, then
+    annotated by the regenerated results, ends up exactly as a never-annotated gene would -/
+theorem annotate_after_strip_as_fresh (tool : String) (st : CdsState) (c : CdsRes) :
+    c.annotate tool st.strip = c.annotate tool {} := rfl
+
+theorem reannotate_after_strip (tool : String) (st : CdsState) (c : CdsRes) :
+    c.annotate tool (c.annotate tool st).strip = c.annotate tool {} := rfl
+
 /-! ### non-vacuity: the invariants hold on non-trivial concrete objects -/
 
 def exHit : HMMResult :=
@@ -672,7 +725,7 @@ example : HMMResult.fromJson exHit.toJson = .reuse exHit := hmmResult_json_round
 example : HMMResult.fromJson (HMMResult.mk "PKS_KS" 400 500 ⟨1, -20⟩ ⟨505, -1⟩
     [.mk "Trans-AT-KS" 503 520 ⟨1, -5⟩ ⟨2, 1⟩ []]).toJson = .refuse .value := by rfl
 
-def exCtx : Ctx := ⟨"rec1", ["cdsA", "cdsB"], none⟩
+def exCtx : Ctx := ⟨"rec1", ["cdsA", "cdsB"], none, none⟩
 def exRules : ModRules := ⟨fun _ => true, fun _ _ => true⟩
 def exNrps : NrpsPks := ⟨"rec1", [("cdsA", ⟨[exHit], [], [⟨[⟨exHit, "cdsA"⟩, ⟨.mk "ACP" 510 560 ⟨1, -9⟩ ⟨3, 1⟩ [], "cdsB"⟩], false⟩]⟩)]⟩
 example : exNrps.valid exRules exCtx = true := by decide
@@ -760,5 +813,15 @@ example : hmmerRunOnRecord .cluster ⟨"35.0", "34.0", "35.0"⟩ (some { exHmmer
 -- … and searched again when the cluster option asks for 35.0 although the sibling option says 34.0
 example : hmmerRunOnRecord .cluster ⟨"34.0", "35.0", "35.0"⟩ (some { exHmmer with database := "/db/pfam/34.0/Pfam-A.hmm" })
     = .reuse (.rerun "35.0") := by decide +kernel
+
+-- a gene annotated, stripped and annotated again by the same results carries the CORE functions again
+example : ((exCds.annotate "rule-based-clusters" (exCds.annotate "rule-based-clusters" {}).strip).functions.annotations).length = 2 := by
+  decide +kernel
+-- with an index that `clear` forgot to reset, the second round would add nothing
+example : let g := ({} : GeneFns).add ⟨.core, "t", "PKS_KS", some "T1PKS"⟩
+    ((⟨[], g.byFunction⟩ : GeneFns).add ⟨.core, "t", "PKS_KS", some "T1PKS"⟩).annotations = [] := by decide
+-- results saved for `scaffold` are not taken over by the renamed `scaffold_0`
+example : HmmerRes.fromJson ⟨"scaffold_0", [], none, some "scaffold"⟩ { exHmmer with recordId := "scaffold" }.toJson = .discard := by
+  decide +kernel
 
 end ASV.C11
